@@ -76,10 +76,31 @@ def gen_far(rng):
     return pre + ["LABEL(far)"] + filler(rng, -d) + [b, "NOP()"]
 
 
+def gen_chain(rng):
+    """Constants defined through earlier constants, used to size the data segment in front of data labels
+    that the code then goes through (seed C04c: such a constant was dropped from label resolution)."""
+    v = rng.choice([1, 2, 3, 7, 40, 300])
+    lines = ["CONSTANT(ca, %d)" % v, "CONSTANT(cb, ca)"]
+    last = "cb"
+    if rng.random() < 0.5:
+        lines.append("CONSTANT(cc, cb)")
+        last = "cc"
+    if rng.random() < 0.5:
+        lines += ["DLABEL(dx)", "INTEGER(%s)" % rng.choice(["ca", last, "7"])]
+    lines += ["DSKIP(%s)" % rng.choice([last, last, "cb"]), "DLABEL(dy)", "INTEGER(42)"]
+    if rng.random() < 0.5:
+        lines += ['LP_STRING("ab")', "DSKIP(%s)" % last, "DLABEL(dz)", "INTEGER(%s)" % last]
+        lines += ["SET(R3, dz)", "LOAD(R4, 0, R3)"]
+    lines += ["SET(R1, dy)", "LOAD(R2, 0, R1)", "SET(R5, %s)" % last, "INC(R6, %s)" % ("ca" if v <= 64 else "1")]
+    return lines + filler(rng, rng.choice([0, 2]))
+
+
 def gen_valid(rng, n_code=None):
     """A mostly valid program as a list of source lines."""
     if n_code is None and rng.random() < 0.08:
         return gen_far(rng)
+    if n_code is None and rng.random() < 0.06:
+        return gen_chain(rng)
     consts, dlabels, labels = [], [], []
     lines = []
     names = list(NAMES[:10])
@@ -102,7 +123,7 @@ def gen_valid(rng, n_code=None):
         elif k < 0.7:
             lines.append("INTEGER(%s)" % lit(rng, rng.choice([0, 1, -1, 300, 65535, -32768, 42])))
         elif k < 0.85:
-            s = "".join(rng.choice(["a", "B", " ", "\\n", "\\t", "\\\\", '\\"', "\\x41", "\\101", "z"]) for _ in range(rng.choice([0, 1, 3, 6])))
+            s = "".join(rng.choice(["a", "B", " ", "\\n", "\\t", "\\\\", '\\"', "\\x41", "\\101", "z", "\\377", "\\400", "\\777", "\\x7f"]) for _ in range(rng.choice([0, 1, 3, 6])))
             lines.append('%s("%s")' % (rng.choice(["LP_STRING", "TIGER_STRING"]), s))
         else:
             lines.append("DSKIP(%s)" % (rng.choice(consts) if consts and rng.random() < 0.4 else str(rng.choice([0, 1, 5, 100]))))
@@ -190,8 +211,11 @@ def mutate(rng, lines):
                 lines[i] = ln[:ln.index("(") + 1] + ", ".join(parts) + ")"
         elif k < 0.55:                                               # duplicate symbol
             lines.insert(i, rng.choice(["LABEL(a)", "DLABEL(a)", "CONSTANT(a, 1)", "LABEL(loop)", "LABEL(5)"]))
-        elif k < 0.65:                                               # data after code
+        elif k < 0.60:                                               # data after code
             lines.append(rng.choice(["INTEGER(1)", "DLABEL(late)", "CONSTANT(late, 2)", 'LP_STRING("x")', "DSKIP(3)"]))
+        elif k < 0.65:                                               # data after a debugging operation only
+            lines[:0] = [rng.choice(['print("x")', 'println("y")', "print_reg(R1)", '__eval("1")']),
+                         rng.choice(["INTEGER(1)", "DLABEL(early)", "CONSTANT(early, 2)", 'LP_STRING("x")', "DSKIP(3)"])]
         elif k < 0.75:                                               # huge data
             lines.insert(0, "DSKIP(%d)" % rng.choice([16000, 16382, 16383, 16384, 65535]))
         elif k < 0.85:                                               # use before declaration / label as constant
